@@ -127,6 +127,7 @@ Section LruBridge.
       rewrite vget_upd by auto. cbn [bind]. rewrite vset_upd by auto. cbn [bind]. proj.
       apply Nat.ltb_lt in L. rewrite L. cbn [bind].
       apply req_bind; [apply req_refl|]. intros ne En. proj.
+      rewrite ?Nat.add_1_r.       (* m_used_size += 1 / m_used_size++ for ++m_used_size *)
       match goal with |- req (bind (g_do_access ?st ?i) _) _ => pose proof (g_do_access_ok st i) as P end.
       unfold set_ll_used, set_ll_end, set_ll_elems, set_ll_index, set_le_keyed, set_le_pos, set_le_val in *.
       cbn [ll_cap ll_elems ll_index ll_list ll_end ll_used le_keyed le_pos le_val] in *.
